@@ -126,6 +126,7 @@ def parse_vc(path):
         elif kw == 'fn':
             cur_fn = FnSpec(s[2:].strip()); u.fns.append(cur_fn); cur_loop = None; section = None
         elif kw == 'result': cur_fn.result = w[1]
+        elif kw == 'opt' and cur_fn is None: u.opts = getattr(u, 'opts', set()) | set(w[1:])
         elif kw == 'opt': cur_fn.opts |= set(w[1:])
         elif kw in ('requires', 'ensures', 'recommends') and len(w) == 1:
             if cur_loop is not None and kw == 'ensures': section = ('loop_ensures', cur_loop)
@@ -175,6 +176,11 @@ def parse_vc(path):
         else:
             raise ValueError(f'{path}:{i+1}: cannot parse: {s}')
         i += 1
+    if 'noiso-all' in getattr(u, 'opts', set()):
+        # unit-wide: every contracted function with loops is verified with loop isolation off, so that facts about locals a loop does
+        # not modify (e.g. a value a harmless refactoring hoisted out of the loop) stay visible in its body without a new invariant
+        for f in u.fns:
+            if f.loops and 'iso' not in f.opts and not any(o.startswith('noiso') for o in f.opts) and not any(l.except_break or l.ensures for l in f.loops): f.opts.add('auto-noiso')
     return u
 
 
@@ -335,7 +341,10 @@ def splice_module(text, mod_path, fnspecs, gen, twin=False):
             spec += f'\n        {kind}'
             for c in clauses:
                 spec += '\n            ' + (MARK % c.id) + ' ' + c.text.replace('\n', '\n              ') + ','
-        if 'noiso' in fs.opts:
+        if 'noiso' in fs.opts or ('auto-noiso' in fs.opts and not twin):
+            # (unit-wide `opt noiso-all`: the reachability-twin variant of the file keeps these loops isolated - each loop body is then its
+            #  own query, so one failed assert(false) is not assumed by the next twin; the twins guard requires/invariants against
+            #  contradiction, which does not depend on isolation)
             # pre-loop facts about unmodified locals stay visible in loop bodies: no 'link' invariants naming locals
             edits.append((it.start, it.start, '#[verifier::loop_isolation(false)] '))
         emit('requires', fs.requires)
@@ -420,6 +429,14 @@ def splice_module(text, mod_path, fnspecs, gen, twin=False):
             if len(hits) < nth:
                 raise Unsupported(f'lost anchor: proof anchor /{rgx}/ #{nth} in {fs.path}')
             ls_, le_ = hits[nth - 1]
+            # a loop that rule R3c had to restructure (`for` over a range with `continue`) has paths that skip proof blocks written for
+            # the straight-line body: a failed invariant there would say nothing about the code (false alarm on a harmless reshaping)
+            for mr in re.finditer(r'while /\*for [^*]*\*/', text[it.body_open:it.end]):
+                lb = text.index('{', it.body_open + mr.end())
+                from .scan import find_close_pos
+                le2 = find_close_pos(text, lb)
+                if lb < ls_ < le2:
+                    raise Unsupported(f'{fs.path}: a proof block of the contract sits inside a for-loop that now uses `continue` (restructured body)')
             pid = f'PROOF:{fs.path}:{n_p}'
             for tc in getattr(fs, 'tagged_proofs', []):
                 if tc.proof_index == n_p: pid = tc.id
